@@ -74,7 +74,10 @@ void callcb(void (*)());
 static void guest_callcb(Sbx::T_PointerType cb) { Sbx::guest_call_callback<void>(cb); }
 void callslot(unsigned);
 static void guest_callslot(uint32_t slot) { Sbx::guest_call_callback<void>(Sbx::CB_BASE + slot); }
-static const rlbox::verif_lib g_lib = { { "f5", (void*)0x1005 }, { "f6", (void*)0x1006 }, { "f7", (void*)0x1007 } };
+// one library per sandbox object index: the same names at different addresses
+static const rlbox::verif_lib g_libs[3] = { { { "f5", (void*)0x1005 }, { "f6", (void*)0x1006 }, { "f7", (void*)0x1007 } },
+                                            { { "f5", (void*)0x1105 }, { "f6", (void*)0x1106 }, { "f7", (void*)0x1107 } },
+                                            { { "f5", (void*)0x1205 }, { "f6", (void*)0x1206 }, { "f7", (void*)0x1207 } } };
 void f5(); void f6(); void f7();   // only named (decltype + spelling) by get_sandbox_function_address
 static thread_local char g_namebuf[8];   // a caller-owned name buffer that is reused for every by-name lookup ("lb"/"ilb")
 #endif
@@ -104,11 +107,11 @@ static std::string run_case(const toks_t& t)
 #else
 #  ifdef LIFE_NO_FIXED_BASE
           Sbx::fixed_base_hint = 0;
-          bool r = sb[i]->create_sandbox(&g_lib, !ok);
+          bool r = sb[i]->create_sandbox(&g_libs[i], !ok);
           if (r) g_actual_base[i] = sb[i]->get_sandbox_impl()->region_base();
 #  else
           Sbx::fixed_base_hint = slot_base_of(i);
-          bool r = sb[i]->create_sandbox(&g_lib, !ok);
+          bool r = sb[i]->create_sandbox(&g_libs[i], !ok);
           Sbx::fixed_base_hint = 0;
 #  endif
 #endif
